@@ -175,6 +175,19 @@ func newPedWorld(n, t, k int, dealerObs bool) *pedWorld {
 		if r3, err := verifier(i, "o").ProcessEncryptedDeal(e3); err == nil && firstOther {
 			w.resps[fmt.Sprintf("resp:%d:othersid", i)] = r3
 		}
+		// equivocation: the dealer hands verifier i a deal for ANOTHER polynomial whose SessionID field claims this
+		// session; i's (authentic) approval of that deal must not count for this session
+		if firstOther {
+			d5 := w.dealer("equivocation", w.dLong, base.Scalar().Pick(alpha.Stream("c10-equivocation-secret")))
+			if pd5, err := d5.PlaintextDeal(i); err == nil {
+				pd5.SessionID = append([]byte{}, w.dealer("main", w.dLong, w.secret).SessionID()...)
+				if e5, err := d5.EncryptedDeal(i); err == nil {
+					if r5, err := verifier(i, "e").ProcessEncryptedDeal(e5); err == nil && r5 != nil {
+						w.resps[fmt.Sprintf("resp:%d:equivocated", i)] = r5
+					}
+				}
+			}
+		}
 		// justifications for i: the real dealer answers i's complaint
 		if j, err := w.dealer("main", w.dLong, w.secret).ProcessResponse(cloneResp(r2)); err == nil && j != nil {
 			w.justs[fmt.Sprintf("just:%d:good", i)] = j
